@@ -251,7 +251,8 @@ class Ctx:
         cur = b
         for _ in range(3):
             inner = None
-            if cur.n <= 12:
+            wrapper = cur.n <= 12 or bool(cur.call_sites(["tracing::Instrument::instrument", "tracing::instrument::Instrument::instrument"]))
+            if wrapper:
                 for blk in range(cur.n):
                     for s in cur.stmts(blk):
                         r = s["r"]
@@ -322,7 +323,7 @@ def subst_leaves(ls, env):
         m = re.match(r"^(len:)?a(\d+)((?:\..*)?)$", lf)
         if m and int(m.group(2)) in env:
             for c in env[int(m.group(2))]:
-                if re.match(r"^a\d+(\.|$)", c):
+                if re.match(r"^[A-Za-z_][A-Za-z_0-9]*(\.|$)", c):
                     out.add((m.group(1) or "") + c + m.group(3))
                 else:
                     out.add(c)
@@ -519,7 +520,7 @@ def loop_heads(ctx, body, iter_pats):
     return out
 
 
-def per_iteration(ctx, body, iter_pats, spec, rule, what):
+def per_iteration(ctx, body, iter_pats, spec, rule, what, skip=None):
     """Within every iteration of the loop over an iterator derived from iter_pats, the
     iteration cannot complete (reach the back edge or an accepting exit) without passing a
     guard for spec."""
@@ -535,7 +536,34 @@ def per_iteration(ctx, body, iter_pats, spec, rule, what):
             for d in body.succ(b):
                 if d == nb or (body.dominates(d, b) and body.dominates(d, nb)):
                     back.add(b)
-        g = Guards(ctx, body, targets=list(back) + acc, cut_back_edges=True, start=[entry])
+        starts = [entry]
+        if skip is not None:
+            # elements the property does not speak about (e.g. absent `None` entries): the
+            # iteration proper starts on the non-skipping edge of the element test
+            region = body.reachable_from([entry], removed_edges={(b, d) for b in back for d in body.succ(b)})
+            for sb in sorted(region):
+                t = body.blocks[sb]["t"]
+                if t["k"] != "switch" or not skip.matches_expr(body.switch_discr_expr(sb), ctx):
+                    continue
+                keep = []
+                for d, lab in body.out_edges(sb):
+                    # a skipping edge reaches the back edge without any call
+                    cur, steps, direct = d, 0, False
+                    while steps < 6:
+                        if cur in back or cur == nb:
+                            direct = True
+                            break
+                        tt = body.blocks[cur]["t"]
+                        if tt["k"] not in ("goto", "drop") :
+                            break
+                        cur = body.out_edges(cur)[0][0]
+                        steps += 1
+                    if not direct:
+                        keep.append(d)
+                if keep and len(keep) < len(body.out_edges(sb)):
+                    starts = keep
+                    break
+        g = Guards(ctx, body, targets=list(back) + acc, cut_back_edges=True, start=starts)
         ctx.evaluations += len(g.switches)
         path, gs = g.unguarded_path(spec)
         # the loop must also lie on every path to an accepting exit
@@ -659,3 +687,67 @@ def all_aggregate_sites(ctx, crates, adt_glob, path_filter=None):
 def root_fn(path):
     """Strip nested closure components: a::b::{closure#0}::{closure#1} -> a::b"""
     return re.sub(r"(::\{[a-z_]+#\d+\})+$", "", path)
+
+
+# ---------------------------------------------------------------------------- arms / regions
+def switches_on(ctx, body, pats, discr_only=False):
+    """Switch blocks whose condition's slice matches all pats."""
+    out = []
+    for b in sorted(body.reachable_from([0])):
+        t = body.blocks[b]["t"]
+        if t["k"] != "switch":
+            continue
+        e = body.switch_discr_expr(b)
+        if discr_only and e[0] != "discr":
+            continue
+        if has_all(ctx.leaves(e), pats):
+            out.append(b)
+    return out
+
+
+def arm_regions(body, sw):
+    """label -> set of blocks reachable from that arm only (not from sibling arms)."""
+    edges = body.out_edges(sw)
+    reach = {}
+    for d, lab in edges:
+        reach[lab] = body.reachable_from([d])
+    out = {}
+    for d, lab in edges:
+        others = set()
+        for d2, lab2 in edges:
+            if lab2 != lab:
+                others |= reach[lab2]
+        out[lab] = reach[lab] - others
+    return out
+
+
+def variant_index(ctx, adt_path, variant):
+    a = ctx.facts.adt(adt_path)
+    if a is None:
+        return None
+    for i, v in enumerate(a["variants"]):
+        if v["name"] == variant:
+            return i
+    return None
+
+
+def calls_in(body, blocks, pats):
+    return [b for b in sorted(blocks) if call_matches(body.blocks[b]["t"], pats)]
+
+
+def call_expr(body, b):
+    return body.expr_call(body.blocks[b]["t"], b, 0)
+
+
+def edge_call_truth(ctx, body, sw, label, call_globs):
+    """True/False when, on edge `label` of switch `sw`, the boolean call matching call_globs
+    (e.g. Result::is_err) is known to have returned true/false; None if undetermined."""
+    t = body.blocks[sw]["t"]
+    truth = edge_truth(t, label)
+    if truth is None:
+        return None
+    e = body.switch_discr_expr(sw)
+    for node, neg in bool_nodes(e):
+        if node[0] == "call" and any(glob(g, node[1]) or glob(g, node[2]) for g in call_globs):
+            return truth != neg
+    return None
